@@ -112,9 +112,9 @@ def validate(ctx, traces, label, shards=8):
             json.dump(part, fh)
         jobs.append(dict(module="Trace_Cluster", cfg="tr.cfg", cwd=d, label="%s shard %d (%d traces)" % (label, i, len(part)),
                          workers=1, env={"TRACE_FILE": tf}, timeout=3000))
-    res = ctx.tlc_parallel(jobs, max_par=8)
+    res = _tolerant_parallel(ctx, jobs)
     out = []
-    for part, r in zip(parts, res):
+    for part, (r, crashed) in zip(parts, res):
         verdict, stuck = {}, {}
         for t, p in r.prints:
             if t == "VERDICT":
@@ -122,9 +122,50 @@ def validate(ctx, traces, label, shards=8):
             elif t == "STUCK":
                 stuck[p[0]] = p[1]
         for k, tr in enumerate(part):
+            if (k + 1) in crashed:
+                # TLC could not even evaluate the specification's clauses on this recorded run (a value outside
+                # every domain the clauses are written for): the run is not a behaviour of the specification
+                out.append((tr, {("ControlFlow", crashed[k + 1])}, None))
+                continue
             v = verdict.get(k + 1)
             out.append((tr, None if v is None else {(c, l) for c, l in v}, stuck.get(k + 1)))
     return out
+
+
+def _tolerant_parallel(ctx, jobs):
+    """ctx.tlc_parallel, except that an evaluation error of TLC inside one recorded trace does not abort the check:
+    the trace is identified from the error trace (tid, l), set aside as rejected, and the shard is run again without
+    it (at most 6 times per shard).  Returns [(result, {tid: l})]."""
+    import re
+    from concurrent.futures import ThreadPoolExecutor
+
+    def one(j):
+        j = dict(j)
+        label = j.pop("label", None)
+        tf = j["env"]["TRACE_FILE"]
+        crashed = {}
+        for attempt in range(7):
+            r = core.run_tlc(j["module"], j["cfg"], j["cwd"], **{k: v for k, v in j.items() if k not in ("module", "cfg", "cwd")})
+            if not (r.error and not r.violated):
+                return label, r, crashed
+            tids = re.findall(r"/\\ tid = (\d+)", r.error + r.stdout)
+            ls = re.findall(r"/\\ l = (\d+)", r.error + r.stdout)
+            if not tids or attempt == 6:
+                return label, r, crashed
+            tid = int(tids[-1])
+            traces = json.load(open(tf))
+            # replace the offending trace by an empty one (keeps the numbering of the others)
+            crashed[tid] = int(ls[-1]) if ls else 0
+            traces[tid - 1] = dict(traces[tid - 1], events=[])
+            with open(tf, "w") as fh:
+                json.dump(traces, fh)
+        return label, r, crashed
+    with ThreadPoolExecutor(8) as ex:
+        outs = list(ex.map(one, jobs))
+    res = []
+    for (label, r, crashed), j in zip(outs, jobs):
+        res.append((ctx._account(r, j["module"], j["cfg"], label, True), crashed))
+    return res
 
 
 OWN = {
@@ -188,6 +229,8 @@ def random_runs(rng, n_runs, algos, max_n=40):
         run = dict(pts=pts, metric=metric, algo=algo, k=kk, cut=cutv if algo != "kmedoids" else 0,
                    dtype=str(rng.choice(["float64", "float32", "int64", "int32"])),
                    form=str(rng.choice(["function", "estimator"])))
+        if run["dtype"].startswith("float"):
+            run["scale"] = float(rng.choice([1.0, 2.0 ** -30, 2.0 ** -30, 4096.0]))
         if algo == "kcenters":
             run["ti"] = bool(rng.randint(2)) and run["form"] == "function"
             run["init"] = [int(x) for x in rng.choice(n, size=rng.randint(0, min(3, n)), replace=False)]
